@@ -31,8 +31,12 @@ theorem walk_memo_indep (g : Graph N) (d : N → Bool) (f0 : N → List R → Ex
   Walker.walk_memo_indep g d f0 inval shortcut fuel n s1 s2 h1 h2 V hV hfuel
 
 /-- The result of a call made after an arbitrary history of calls on the same walker equals the result of the same
-    call on a freshly constructed walker. -/
-theorem history_indep (g : Graph N) (d : N → Bool) (f0 : N → List R → Except E R) (inval shortcut : Bool)
+    call on a freshly constructed walker.
+    `_partial`: the property speaks about a whole `Environment`; this is proved for each memoising walker object
+    separately (any sequence of walks on it) and, below, for the `Int` cache.  A combined model of all objects of an
+    environment (formula table, type manager, parser and printer objects, `TheoryOracle`'s mutable results) is not
+    built; their independence is checked by the differential run against a fresh twin environment only. -/
+theorem history_indep_partial (g : Graph N) (d : N → Bool) (f0 : N → List R → Except E R) (inval shortcut : Bool)
     (fuel : Nat) (V : List N) (hfuel : 2 * cost g V + 2 ≤ fuel) (hist : List N) (q : N)
     (hV : ∀ x ∈ q :: hist, Covers g d x V) :
     (walk g d (fun _ => f0) inval shortcut fuel q
